@@ -4,6 +4,10 @@ use crate::__verif_c15_chan::chan;
 use std::io::Write as _;
 fn nd<T: kani::Arbitrary>() -> T { kani::any() }
 fn pad_stub<'a>(_f: &mut core::fmt::Formatter<'a>, _s: &str) -> core::fmt::Result where 'a: 'a { Ok(()) }
+/// eprintln! reaches std's OUTPUT_CAPTURE thread-local (drop-needing TLS: crashes the Kani compiler); diagnostics are not part of the contract
+/// the guard is built without a thread handle (no thread is spawned under Kani); `join` is only removed from the reachable code
+fn join_stub<T>(_h: JoinHandle<T>) -> std::thread::Result<T> { unreachable!() }
+fn eprint_stub(_a: core::fmt::Arguments<'_>) {}
 fn sum(b: &[u8]) -> usize { let mut s = 0usize; let mut i = 0; while i < b.len() { s = s.wrapping_mul(31).wrapping_add(b[i] as usize); i += 1; } s }
 
 #[kani::proof]
@@ -46,25 +50,6 @@ fn c15_write_accounting_lossy_and_blocking() {
     core::mem::forget(nb);
 }
 
-#[kani::proof]
-#[kani::unwind(6)]
-#[kani::stub(core::fmt::Formatter::pad, pad_stub)]
-#[kani::stub(crossbeam_channel::Sender::send_timeout, chan::send_timeout_stub)]
-fn c15_guard_drop_sends_shutdown_then_rendezvous() {
-    // zero-capacity channels: cheapest real flavour; the guard's own sends are the contract stub, only the final field
-    // drops touch the real channel
-    let (s, _r) = crossbeam_channel::bounded::<Msg>(0);
-    let (s2, _r2) = crossbeam_channel::bounded::<()>(0);
-    let o1: usize = nd(); let o2: usize = nd(); kani::assume(o1 <= 2 && o2 <= 2);
-    chan::NEXT_SEND.store(o1, VSeq); chan::NEXT_RENDEZVOUS.store(o2, VSeq);
-    let g = WorkerGuard { handle: None, sender: s, shutdown: s2 };
-    drop(g);
-    if o1 == 0 {
-        assert!(chan::SHUTDOWNS.load(VSeq) == 1, "C15.guard.shutdown_message_sent_once_on_the_data_channel_behind_queued_lines");
-        if o2 == 0 {
-            assert!(chan::RENDEZVOUS.load(VSeq) == 1 && chan::SHUTDOWN_STAMP.load(VSeq) < chan::RENDEZVOUS_STAMP.load(VSeq), "C15.guard.rendezvous_after_shutdown_message");
-        }
-    } else {
-        assert!(chan::SHUTDOWNS.load(VSeq) == 0 && chan::RENDEZVOUS.load(VSeq) == 0, "C15.guard.no_rendezvous_if_shutdown_not_delivered");
-    }
-}
+// `Drop for WorkerGuard` (Shutdown sent behind queued lines, then the rendezvous, then join) is NOT under contract: every
+// harness that reaches that drop body crashes the Kani compiler (intrinsics.rs:243, a drop-needing std thread-local behind
+// eprintln! / JoinHandle::join that stubbing does not remove). Listed under not_covered.
